@@ -109,9 +109,14 @@ Loop* SelectFdEvent::getLoop() const
     return wp_loop_;
 }
 
-void SelectFdEvent::OnEventCallback(bool is_readable, bool is_writable, bool is_except, SelectFdSharedData *data)
+void SelectFdEvent::OnEventCallback(bool is_readable, bool is_writable, bool is_except, SelectLoop *loop, int fd)
 {
     RECORD_SCOPE();
+    //! 前面的回调可能已经删除了该fd上最后一个FdEvent，此时共享数据已被释放
+    SelectFdSharedData *data = loop->findFdSharedData(fd);
+    if (data == nullptr)
+        return;
+
     short tbox_events = 0;
 
     if (is_readable)
@@ -125,8 +130,17 @@ void SelectFdEvent::OnEventCallback(bool is_readable, bool is_writable, bool is_
 
     //! 要先复制一份，因为在for中很可能会改动到d->fd_events，引起迭代器失效问题
     auto tmp = data->fd_events;
-    for (auto event : tmp)
+    for (auto event : tmp) {
+        //! 前面的回调可能已经disable或删除了该事件，甚至释放了共享数据，调用前必须重新确认
+        data = loop->findFdSharedData(fd);
+        if (data == nullptr)
+            break;
+
+        if (std::find(data->fd_events.begin(), data->fd_events.end(), event) == data->fd_events.end())
+            continue;
+
         event->onEvent(tbox_events);
+    }
 }
 
 void SelectFdEvent::onEvent(short events)
